@@ -17,6 +17,7 @@ use std::process::Command;
 
 fn main() {
     println!("cargo:rerun-if-changed=build.rs");
+    println!("cargo:rustc-check-cfg=cfg(zipora_verif)");
     println!("cargo:rerun-if-changed=Cargo.toml");
     
     // Detect and configure SIMD features
